@@ -17,9 +17,9 @@ PLANS = {
     "C02": {"quick": [("wt9", "full-unique,lean-shadow"), ("sc1", "full-unique,lean-shadow"), ("sc2", "full-unique,lean-shadow"), ("sc3", "full-unique,lean-shadow")],
             "thorough": [("wt10", "full-unique,lean-shadow,full-random"), ("wt10b", "full-unique,lean-random"),
                          ("wt9v", "full-unique,lean-shadow"), ("sc1", "full-unique,lean-random"), ("sc2", "full-unique,lean-random"), ("sc3", "full-unique,lean-random,lean-shadow")]},
-    "C03": {"quick": [("f7", "full-unique"), ("wt9", "lean-shadow")],
+    "C03": {"quick": [("f7", "full-unique"), ("wt9", "lean-shadow"), ("sc4", "full-unique,lean-unique")],
             "thorough": [("f7", "full-unique"), ("f7b", "full-unique"), ("wt10", "lean-unique,full-shadow"),
-                         ("wt10b", "lean-shadow")]},
+                         ("wt10b", "lean-shadow"), ("sc4", "full-unique,lean-unique,lean-shadow")]},
 }
 
 EXPECTED_TOKENS = {"var", "int", "unit", "str", "thunk", "ret", "lam", "force", "exit", "ctor", "dtor", "fix", "i2s",
@@ -29,6 +29,8 @@ EXPECTED_TOKENS = {"var", "int", "unit", "str", "thunk", "ret", "lam", "force", 
 def expected_tokens(cfg):
     """Vacuity guard: the token kinds a configuration must reach within its bound."""
     if cfg.startswith("sc"):
+        if cfg == "sc4":
+            return {"match", "thunk", "force", "do", "exit", "ctor"}
         if cfg == "sc3":
             return {"comatch", "dtor", "lam", "app", "arith", "exit"}
         return {"vlam", "vapp", "matchP", "pair", "let"} if cfg == "sc1" else {"thunk", "lam", "do", "force", "matchP", "app"}
@@ -151,7 +153,8 @@ def run(prop, tier):
         all_kinds.update(kinds)
         all_faults.update(faults)
         summ = os.path.join(W, "%s.%s.summary.json" % (cfg, prop))
-        lib.zyconf(["replay-core", cases, summ, modes], timeout=6000)
+        # sc4: a three-arm match in synthesis position; arm disagreement stays a definite error without annotations
+        lib.zyconf(["replay-core", cases, summ, modes], timeout=6000, env={"ZYCORE_LEAN_FAULTS": "T-Arm,K-Sort-Arm"} if cfg == "sc4" else None)
         s = json.load(open(summ))
         replayed += s["renders"]
         out.add_findings(s["findings"])
@@ -182,7 +185,7 @@ def run(prop, tier):
         for f in es["findings"]:
             # an accepted program that goes wrong at run time is C01's business, a wrong verdict C03's
             f = dict(f)
-            f["property"] = "C01" if f["kind"] == "existential-program-behaviour" else "C03"
+            f["property"] = f["property"] if f.get("property") == "C01" and f["kind"] == "stuck-after-escape" else ("C01" if f["kind"] == "existential-program-behaviour" else "C03")
             out.add_findings([f])
         states += res["distinct"]
         transitions += res["generated"]
